@@ -10,9 +10,17 @@ namespace C01
 open Const X86 X86Lift
 open C07 (get_set get_set_self get_set_ne)
 
-/-- the register-register instruction as the specification sees it -/
-def insRR (m : String) (addr len asz : Nat) (d s : GReg) : Ins :=
-  { mode := .amd64, mnem := m, len := len, asz := asz, ops := [.reg d, .reg s], addr := addr }
+/-- a two-operand instruction with a register destination, as the specification sees it -/
+def ins2 (m : String) (addr len asz : Nat) (d : GReg) (so : Opnd) : Ins :=
+  { mode := .amd64, mnem := m, len := len, asz := asz, ops := [.reg d, so], addr := addr }
+
+/-- the register-register instruction -/
+abbrev insRR (m : String) (addr len asz : Nat) (d s : GReg) : Ins := ins2 m addr len asz d (.reg s)
+/-- register, immediate -/
+abbrev insRI (m : String) (addr len asz : Nat) (d : GReg) (v bytes : Nat) : Ins := ins2 m addr len asz d (.imm v bytes)
+/-- one register operand -/
+def ins1 (m : String) (addr len asz : Nat) (d : GReg) : Ins :=
+  { mode := .amd64, mnem := m, len := len, asz := asz, ops := [.reg d], addr := addr }
 
 /-- the lifted block, run from a state holding `st`, ends at the specification's next address in a state holding the
     specification's result; nothing is undefined -/
@@ -54,61 +62,25 @@ theorem exec_of {σ : State} {st : St} (ha : Abs σ st) {e : Expr} {b : Bool} (h
   · simp only [X86Lift.scalar]; rw [get_set_ne _ _ hne]; exact ht
   · simpa [X86Lift.scalar] using abs_set_of ha b
 
-/-! ### the operation lists of the mirror, written out -/
+/-! ### the source operand, abstractly
 
-theorem tempE_bits (addr sub w : Nat) : (Expr.scalar (temp addr sub w)).bits = w := rfl
+  `Src st d so se b`: the specification's operand `so` and the mirror's expression `se` for it both denote the
+  `d.bits`-wide value `b`, in every IL state that holds a machine state with `st`'s general registers. -/
 
-/-- the operations of `add r, r` / `sub r, r` -/
-def arithOps (op : BinOp) (sub : Bool) (addr : Nat) (d s : GReg) : List Op :=
-  [.assign (temp addr 0 d.bits) (.bin op (getE d) (getE s)),
-   .assign (X86Lift.scalar "ZF" 1) (zfE (.scalar (temp addr 0 d.bits)) d.bits),
-   .assign (X86Lift.scalar "SF" 1) (sfE (.scalar (temp addr 0 d.bits)) d.bits),
-   .assign (X86Lift.scalar "OF" 1) (ofE (.scalar (temp addr 0 d.bits)) (getE d) (getE s) sub d.bits),
-   .assign (X86Lift.scalar "CF" 1) (if sub then cfSubE (.scalar (temp addr 0 d.bits)) (getE d) else cfAddE (.scalar (temp addr 0 d.bits)) (getE d)),
-   .assign (X86Lift.scalar (rName d.idx) 64) (setE d (.scalar (temp addr 0 d.bits)))]
+theorem nextIp_2 (m : String) (addr len asz : Nat) (d : GReg) (so : Opnd) (h : addr + len < 2 ^ 64) :
+    nextIp (ins2 m addr len asz d so) = addr + len := by
+  simp [nextIp, ins2, Mode.bits, Nat.mod_eq_of_lt h]
 
-theorem opsRR_add {d s : GReg} (hd : Shape d) (hs : Shape s) (hb : s.bits = d.bits) (addr : Nat) :
-    opsRR .amd64 "add" addr d s = .ok (arithOps .add false addr d s) := by
-  have h2 : 2 ≤ d.bits := by rcases shape_bits hd with h | h | h | h <;> omega
-  have hgd := getE_bits hd
-  have hgs : (getE s).bits = d.bits := by rw [getE_bits hs, hb]
-  simp only [opsRR, regGet_eq hd, regGet_eq hs, bind, Res.bind, hgd, pure]
-  rw [zfExpr_eq (tempE_bits addr 0 d.bits), sfExpr_eq (tempE_bits addr 0 d.bits) h2,
-    ofExpr_eq false (tempE_bits addr 0 d.bits) hgd hgs h2, cfAddExpr_eq (by rw [hgd]; rfl)]
-  simp only [regSet, regSetExpr_eq hd (tempE_bits addr 0 d.bits), Expr.mkBin, hgd, hgs, bind, Res.bind, pure,
-    ne_eq, not_true_eq_false, ↓reduceIte, Mode.bits, arithOps, Bool.false_eq_true]
-
-
-/-! ### the specification on a register-register instruction -/
-
-theorem nextIp_rr (m : String) (addr len asz : Nat) (d s : GReg) (h : addr + len < 2 ^ 64) :
-    nextIp (insRR m addr len asz d s) = addr + len := by
-  simp [nextIp, insRR, Mode.bits, Nat.mod_eq_of_lt h]
-
-theorem alu2_rr (m : String) (addr len asz : Nat) (d s : GReg) (st : St)
-    (f : (w : Nat) → St → BitVec w → BitVec w → BitVec w × St) (h : addr + len < 2 ^ 64) :
-    alu2 (insRR m addr len asz d s) st f true =
-      .ok (setReg (f d.bits st (getReg st d d.bits) (getReg st s d.bits)).2 d
-            ((f d.bits st (getReg st d d.bits) (getReg st s d.bits)).1.setWidth 64)) (addr + len) [] := by
-  have hn := nextIp_rr m addr len asz d s h
-  simp only [alu2, insRR, Opnd.bits, readOp, writeOp, orTrap, done, bind, Option.bind, pure, ↓reduceIte, Option.getD] at hn ⊢
-  rw [hn]
-
-theorem alu2_rr_nostore (m : String) (addr len asz : Nat) (d s : GReg) (st : St)
-    (f : (w : Nat) → St → BitVec w → BitVec w → BitVec w × St) (h : addr + len < 2 ^ 64) :
-    alu2 (insRR m addr len asz d s) st f false =
-      .ok (f d.bits st (getReg st d d.bits) (getReg st s d.bits)).2 (addr + len) [] := by
-  have hn := nextIp_rr m addr len asz d s h
-  simp only [alu2, insRR, Opnd.bits, readOp, writeOp, orTrap, done, bind, Option.bind, pure, Bool.false_eq_true, ↓reduceIte, Option.getD] at hn ⊢
-  rw [hn]
-
-theorem step_add_rr (addr len asz : Nat) (d s : GReg) (st : St) :
-    step (insRR "add" addr len asz d s) st =
-      alu2 (insRR "add" addr len asz d s) st (fun _ σ a b => addWith σ a b false) true := by
-  have h : splitCc "add" = none := by decide
-  unfold step insRR
-  simp only [h]
-  simp
+structure Src (st : St) (d : GReg) (so : Opnd) (se : Expr) (b : BitVec d.bits) : Prop where
+  bits : se.bits = d.bits
+  ev : ∀ {σ' st'}, Abs σ' st' → st'.gpr = st.gpr → Ev σ' se d.bits b
+  /-- how `X86.alu2` reads the operand -/
+  spec : ∀ (m : String) (addr len asz : Nat) (f : (w : Nat) → St → BitVec w → BitVec w → BitVec w × St), addr + len < 2 ^ 64 →
+    alu2 (ins2 m addr len asz d so) st f true =
+      .ok (setReg (f d.bits st (getReg st d d.bits) b).2 d ((f d.bits st (getReg st d d.bits) b).1.setWidth 64)) (addr + len) [] ∧
+    alu2 (ins2 m addr len asz d so) st f false = .ok (f d.bits st (getReg st d d.bits) b).2 (addr + len) []
+  /-- how `mov` reads it -/
+  read : ∀ (i : Ins), readOp i st d.bits so = some b
 
 /-- reading a register operand is unaffected by flag changes -/
 theorem ev_getE' {σ : State} {st st' : St} (ha : Abs σ st') (hg : st'.gpr = st.gpr) {r : GReg} (hr : Shape r) (hi : r.idx < 16)
@@ -118,173 +90,89 @@ theorem ev_getE' {σ : State} {st st' : St} (ha : Abs σ st') (hg : st'.gpr = st
   have e : getReg st' r r.bits = getReg st r r.bits := by simp [getReg, hg]
   rw [e] at this; exact this
 
-theorem lift_add_rr {d s : GReg} (hd : Shape d) (hs : Shape s) (hb : s.bits = d.bits) (hdi : d.idx < 16) (hsi : s.idx < 16)
-    (addr len asz : Nat) (haddr : addr + len < 2 ^ 64) (σ : State) (st : St) (ha : Abs σ st) :
-    ∃ r, liftRR .amd64 "add" addr len d s = .ok r ∧ Agrees r σ (insRR "add" addr len asz d s) st := by
-  have hw := shape_bits hd
-  refine ⟨straight addr len (arithOps .add false addr d s), by simp [liftRR, opsRR_add hd hs hb, bind, Res.bind, pure], ?_⟩
-  have hne : ∀ f, f ∈ flagNames → (temp addr 0 d.bits).name ≠ f := fun f hf => temp_ne_flag hf addr 0 d.bits
-  -- 1. the temporary
-  have e1 := exec_assign (σ := σ) (temp addr 0 d.bits) (Ev.add (ev_getE' ha rfl hd hdi rfl) (ev_getE' ha rfl hs hsi hb))
-  have ha1 := abs_set_temp ha addr 0 d.bits (ofBV (getReg st d d.bits + getReg st s d.bits))
-  have ht1 := get_set_self σ (temp addr 0 d.bits).name (ofBV (getReg st d d.bits + getReg st s d.bits))
-  -- 2. ZF SF OF CF
-  obtain ⟨σ2, e2, ht2, hm2, ha2⟩ := exec_zf ha1 (ev_zfE (Ev.scalar (s := temp addr 0 d.bits) ht1)) _ _ ht1 (hne _ (by simp [flagNames]))
-  obtain ⟨σ3, e3, ht3, hm3, ha3⟩ := exec_sf ha2 (ev_sfE hw (Ev.scalar (s := temp addr 0 d.bits) ht2)) _ _ ht2 (hne _ (by simp [flagNames]))
-  obtain ⟨σ4, e4, ht4, hm4, ha4⟩ := exec_of ha3 (ev_ofE hw false (Ev.scalar (s := temp addr 0 d.bits) ht3)
-    (ev_getE' ha3 rfl hd hdi rfl) (ev_getE' ha3 rfl hs hsi hb)) _ _ ht3 (hne _ (by simp [flagNames]))
-  obtain ⟨σ5, e5, ht5, hm5, ha5⟩ := exec_cf ha4 (ev_cfAddE (Ev.scalar (s := temp addr 0 d.bits) ht4) (ev_getE' ha4 rfl hd hdi rfl))
-    _ _ ht4 (hne _ (by simp [flagNames]))
-  -- 3. the destination
-  have e6 := exec_assign (X86Lift.scalar (rName d.idx) 64) (ev_setE ha5 hd hdi (Ev.scalar (s := temp addr 0 d.bits) ht5))
-  have ha6 := abs_setReg ha5 hdi ((getReg st d d.bits + getReg st s d.bits).setWidth 64)
-  refine ⟨_, _, ?_, ?_, ha6, ?_⟩
-  · rw [runBTR_straight _ _ _ _ (by simp [arithOps])]
-    simp only [arithOps, Bool.false_eq_true, ↓reduceIte, execOps, e1, e2, e3, e4, e5, e6, insRR]
-    rfl
-  · rw [step_add_rr, alu2_rr _ _ _ _ _ _ _ _ haddr]
-    simp only [insRR]
-    congr 1
-    simp only [addWith, setSZ, ← add_cf_eq hw, ← add_of_eq hw, ← sf_eq hw]
-    simp [getReg, fZf]
-  · simp [X86Lift.scalar, hm5, hm4, hm3, hm2]
+theorem src_reg (st : St) {d s : GReg} (hs : Shape s) (hb : s.bits = d.bits) (hsi : s.idx < 16) :
+    Src st d (.reg s) (getE s) (getReg st s d.bits) where
+  bits := by rw [getE_bits hs, hb]
+  ev := fun h hg => ev_getE' h hg hs hsi hb
+  spec := fun m addr len asz f h => by
+    have hn := nextIp_2 m addr len asz d (.reg s) h
+    constructor <;>
+    · simp only [alu2, ins2, Opnd.bits, readOp, writeOp, orTrap, done, bind, Option.bind, pure, ↓reduceIte, Option.getD,
+        Bool.false_eq_true] at hn ⊢
+      rw [hn]
+  read := fun _ => rfl
 
+theorem ofNat_mod64 {w : Nat} (hw : OpWidth w) (v : Nat) : BitVec.ofNat w (v % 2 ^ 64) = BitVec.ofNat w v := by
+  apply BitVec.eq_of_toNat_eq
+  simp only [BitVec.toNat_ofNat]
+  have : (2 : Nat) ^ w ∣ 2 ^ 64 := Nat.pow_dvd_pow 2 (by rcases hw with rfl | rfl | rfl | rfl <;> omega)
+  exact Nat.mod_mod_of_dvd v this
 
-/-! ### sub -/
+theorem src_imm (st : St) {d : GReg} (hd : Shape d) (v bytes : Nat) (hb : 8 * bytes = d.bits) :
+    Src st d (.imm v bytes) (Expr.ec v d.bits) (BitVec.ofNat d.bits v) where
+  bits := rfl
+  ev := fun {σ' _} _ _ => (Ev.ec (σ := σ') v d.bits).cast (ofNat_mod64 (shape_bits hd) v)
+  spec := fun m addr len asz f h => by
+    have hn := nextIp_2 m addr len asz d (.imm v bytes) h
+    have hx : X86.sext (BitVec.ofNat (8 * bytes) v) d.bits = BitVec.ofNat d.bits v := by
+      simp only [X86.sext]; rw [hb]; simp
+    constructor <;>
+    · simp only [alu2, ins2, Opnd.bits, readOp, writeOp, orTrap, done, bind, Option.bind, pure, ↓reduceIte, Option.getD,
+        Bool.false_eq_true, hx] at hn ⊢
+      rw [hn]
+  read := fun _ => rfl
 
-theorem opsRR_sub {d s : GReg} (hd : Shape d) (hs : Shape s) (hb : s.bits = d.bits) (addr : Nat) :
-    opsRR .amd64 "sub" addr d s = .ok (arithOps .sub true addr d s) := by
+/-! ### the operation lists of the mirror, written out -/
+
+theorem tempE_bits (addr sub w : Nat) : (Expr.scalar (temp addr sub w)).bits = w := rfl
+
+/-- the operations of `add` / `sub` -/
+def arithOps (op : BinOp) (sub : Bool) (addr : Nat) (d : GReg) (se : Expr) : List Op :=
+  [.assign (temp addr 0 d.bits) (.bin op (getE d) se),
+   .assign (X86Lift.scalar "ZF" 1) (zfE (.scalar (temp addr 0 d.bits)) d.bits),
+   .assign (X86Lift.scalar "SF" 1) (sfE (.scalar (temp addr 0 d.bits)) d.bits),
+   .assign (X86Lift.scalar "OF" 1) (ofE (.scalar (temp addr 0 d.bits)) (getE d) se sub d.bits),
+   .assign (X86Lift.scalar "CF" 1) (if sub then cfSubE (.scalar (temp addr 0 d.bits)) (getE d) else cfAddE (.scalar (temp addr 0 d.bits)) (getE d)),
+   .assign (X86Lift.scalar (rName d.idx) 64) (setE d (.scalar (temp addr 0 d.bits)))]
+
+theorem opsDS_add {d : GReg} (hd : Shape d) {se : Expr} (hgs : se.bits = d.bits) (addr : Nat) :
+    opsDS .amd64 "add" addr d se = .ok (arithOps .add false addr d se) := by
   have h2 : 2 ≤ d.bits := by rcases shape_bits hd with h | h | h | h <;> omega
   have hgd := getE_bits hd
-  have hgs : (getE s).bits = d.bits := by rw [getE_bits hs, hb]
-  simp only [opsRR, regGet_eq hd, regGet_eq hs, bind, Res.bind, hgd, pure]
+  simp only [opsDS, regGet_eq hd, bind, Res.bind, hgd, pure]
+  rw [zfExpr_eq (tempE_bits addr 0 d.bits), sfExpr_eq (tempE_bits addr 0 d.bits) h2,
+    ofExpr_eq false (tempE_bits addr 0 d.bits) hgd hgs h2, cfAddExpr_eq (by rw [hgd]; rfl)]
+  simp only [regSet, regSetExpr_eq hd (tempE_bits addr 0 d.bits), Expr.mkBin, hgd, hgs, bind, Res.bind, pure,
+    ne_eq, not_true_eq_false, ↓reduceIte, Mode.bits, arithOps, Bool.false_eq_true]
+
+theorem opsDS_sub {d : GReg} (hd : Shape d) {se : Expr} (hgs : se.bits = d.bits) (addr : Nat) :
+    opsDS .amd64 "sub" addr d se = .ok (arithOps .sub true addr d se) := by
+  have h2 : 2 ≤ d.bits := by rcases shape_bits hd with h | h | h | h <;> omega
+  have hgd := getE_bits hd
+  simp only [opsDS, regGet_eq hd, bind, Res.bind, hgd, pure]
   rw [zfExpr_eq (tempE_bits addr 0 d.bits), sfExpr_eq (tempE_bits addr 0 d.bits) h2,
     ofExpr_eq true (tempE_bits addr 0 d.bits) hgd hgs h2, cfSubExpr_eq (by rw [hgd]; rfl)]
   simp only [regSet, regSetExpr_eq hd (tempE_bits addr 0 d.bits), Expr.mkBin, hgd, hgs, bind, Res.bind, pure,
     ne_eq, not_true_eq_false, ↓reduceIte, Mode.bits, arithOps]
 
-theorem step_sub_rr (addr len asz : Nat) (d s : GReg) (st : St) :
-    step (insRR "sub" addr len asz d s) st =
-      alu2 (insRR "sub" addr len asz d s) st (fun _ σ a b => subWith σ a b false) true := by
-  have h : splitCc "sub" = none := by decide
-  unfold step insRR
-  simp only [h]
-  simp
+def cmpOps (d : GReg) (se : Expr) : List Op :=
+  [.assign (X86Lift.scalar "ZF" 1) (zfE (.bin .sub (getE d) se) d.bits),
+   .assign (X86Lift.scalar "SF" 1) (sfE (.bin .sub (getE d) se) d.bits),
+   .assign (X86Lift.scalar "OF" 1) (ofE (.bin .sub (getE d) se) (getE d) se true d.bits),
+   .assign (X86Lift.scalar "CF" 1) (cfSubE (.bin .sub (getE d) se) (getE d))]
 
-theorem lift_sub_rr {d s : GReg} (hd : Shape d) (hs : Shape s) (hb : s.bits = d.bits) (hdi : d.idx < 16) (hsi : s.idx < 16)
-    (addr len asz : Nat) (haddr : addr + len < 2 ^ 64) (σ : State) (st : St) (ha : Abs σ st) :
-    ∃ r, liftRR .amd64 "sub" addr len d s = .ok r ∧ Agrees r σ (insRR "sub" addr len asz d s) st := by
-  have hw := shape_bits hd
-  refine ⟨straight addr len (arithOps .sub true addr d s), by simp [liftRR, opsRR_sub hd hs hb, bind, Res.bind, pure], ?_⟩
-  have hne : ∀ f, f ∈ flagNames → (temp addr 0 d.bits).name ≠ f := fun f hf => temp_ne_flag hf addr 0 d.bits
-  have e1 := exec_assign (σ := σ) (temp addr 0 d.bits) (Ev.sub (ev_getE' ha rfl hd hdi rfl) (ev_getE' ha rfl hs hsi hb))
-  have ha1 := abs_set_temp ha addr 0 d.bits (ofBV (getReg st d d.bits - getReg st s d.bits))
-  have ht1 := get_set_self σ (temp addr 0 d.bits).name (ofBV (getReg st d d.bits - getReg st s d.bits))
-  obtain ⟨σ2, e2, ht2, hm2, ha2⟩ := exec_zf ha1 (ev_zfE (Ev.scalar (s := temp addr 0 d.bits) ht1)) _ _ ht1 (hne _ (by simp [flagNames]))
-  obtain ⟨σ3, e3, ht3, hm3, ha3⟩ := exec_sf ha2 (ev_sfE hw (Ev.scalar (s := temp addr 0 d.bits) ht2)) _ _ ht2 (hne _ (by simp [flagNames]))
-  obtain ⟨σ4, e4, ht4, hm4, ha4⟩ := exec_of ha3 (ev_ofE hw true (Ev.scalar (s := temp addr 0 d.bits) ht3)
-    (ev_getE' ha3 rfl hd hdi rfl) (ev_getE' ha3 rfl hs hsi hb)) _ _ ht3 (hne _ (by simp [flagNames]))
-  obtain ⟨σ5, e5, ht5, hm5, ha5⟩ := exec_cf ha4 (ev_cfSubE (Ev.scalar (s := temp addr 0 d.bits) ht4) (ev_getE' ha4 rfl hd hdi rfl))
-    _ _ ht4 (hne _ (by simp [flagNames]))
-  have e6 := exec_assign (X86Lift.scalar (rName d.idx) 64) (ev_setE ha5 hd hdi (Ev.scalar (s := temp addr 0 d.bits) ht5))
-  have ha6 := abs_setReg ha5 hdi ((getReg st d d.bits - getReg st s d.bits).setWidth 64)
-  refine ⟨_, _, ?_, ?_, ha6, ?_⟩
-  · rw [runBTR_straight _ _ _ _ (by simp [arithOps])]
-    simp only [arithOps, ↓reduceIte, execOps, e1, e2, e3, e4, e5, e6, insRR]
-    rfl
-  · rw [step_sub_rr, alu2_rr _ _ _ _ _ _ _ _ haddr]
-    simp only [insRR]
-    congr 1
-    simp only [subWith, setSZ, ← sub_cf_eq hw, ← sub_of_eq hw, ← sf_eq hw]
-    simp [getReg]
-  · simp [hm5, hm4, hm3, hm2]
-
-/-! ### cmp -/
-
-def cmpOps (d s : GReg) : List Op :=
-  [.assign (X86Lift.scalar "ZF" 1) (zfE (.bin .sub (getE d) (getE s)) d.bits),
-   .assign (X86Lift.scalar "SF" 1) (sfE (.bin .sub (getE d) (getE s)) d.bits),
-   .assign (X86Lift.scalar "OF" 1) (ofE (.bin .sub (getE d) (getE s)) (getE d) (getE s) true d.bits),
-   .assign (X86Lift.scalar "CF" 1) (cfSubE (.bin .sub (getE d) (getE s)) (getE d))]
-
-theorem opsRR_cmp {d s : GReg} (hd : Shape d) (hs : Shape s) (hb : s.bits = d.bits) (addr : Nat) :
-    opsRR .amd64 "cmp" addr d s = .ok (cmpOps d s) := by
+theorem opsDS_cmp {d : GReg} (hd : Shape d) {se : Expr} (hgs : se.bits = d.bits) (addr : Nat) :
+    opsDS .amd64 "cmp" addr d se = .ok (cmpOps d se) := by
   have h2 : 2 ≤ d.bits := by rcases shape_bits hd with h | h | h | h <;> omega
   have hgd := getE_bits hd
-  have hgs : (getE s).bits = d.bits := by rw [getE_bits hs, hb]
-  have he : (Expr.bin .sub (getE d) (getE s)).bits = d.bits := by simp [Expr.bits, BinOp.isCmp, hgd]
-  simp only [opsRR, regGet_eq hd, regGet_eq hs, bind, Res.bind, hgd, hgs, pure, Expr.mkBin, ne_eq, not_true_eq_false, ↓reduceIte]
+  have he : (Expr.bin .sub (getE d) se).bits = d.bits := by simp [Expr.bits, BinOp.isCmp, hgd]
+  simp only [opsDS, regGet_eq hd, bind, Res.bind, hgd, hgs, pure, Expr.mkBin, ne_eq, not_true_eq_false, ↓reduceIte]
   rw [zfExpr_eq he, sfExpr_eq he h2, ofExpr_eq true he hgd hgs h2, cfSubExpr_eq (by rw [hgd, he])]
   simp only [bind, Res.bind, pure, cmpOps]
 
-theorem step_cmp_rr (addr len asz : Nat) (d s : GReg) (st : St) :
-    step (insRR "cmp" addr len asz d s) st =
-      alu2 (insRR "cmp" addr len asz d s) st (fun _ σ a b => subWith σ a b false) false := by
-  have h : splitCc "cmp" = none := by decide
-  unfold step insRR
-  simp only [h]
-  simp
-
-/-- the dummy temporary name used to thread `exec_*` when no temporary exists: a fresh state entry is not needed,
-    any name different from the four flags that the state holds will do; we use the destination register -/
-theorem lift_cmp_rr {d s : GReg} (hd : Shape d) (hs : Shape s) (hb : s.bits = d.bits) (hdi : d.idx < 16) (hsi : s.idx < 16)
-    (addr len asz : Nat) (haddr : addr + len < 2 ^ 64) (σ : State) (st : St) (ha : Abs σ st) :
-    ∃ r, liftRR .amd64 "cmp" addr len d s = .ok r ∧ Agrees r σ (insRR "cmp" addr len asz d s) st := by
-  have hw := shape_bits hd
-  refine ⟨straight addr len (cmpOps d s), by simp [liftRR, opsRR_cmp hd hs hb, bind, Res.bind, pure], ?_⟩
-  have hne : ∀ f, f ∈ flagNames → rName d.idx ≠ f := fun f hf => rName_ne_flag hdi hf
-  have ev : ∀ {σ' st'}, Abs σ' st' → st'.gpr = st.gpr →
-      Ev σ' (.bin .sub (getE d) (getE s)) d.bits (getReg st d d.bits - getReg st s d.bits) :=
-    fun h hg => Ev.sub (ev_getE' h hg hd hdi rfl) (ev_getE' h hg hs hsi hb)
-  have ht1 := ha.gpr d.idx hdi
-  obtain ⟨σ2, e2, ht2, hm2, ha2⟩ := exec_zf ha (ev_zfE (ev ha rfl)) _ _ ht1 (hne _ (by simp [flagNames]))
-  obtain ⟨σ3, e3, ht3, hm3, ha3⟩ := exec_sf ha2 (ev_sfE hw (ev ha2 rfl)) _ _ ht2 (hne _ (by simp [flagNames]))
-  obtain ⟨σ4, e4, ht4, hm4, ha4⟩ := exec_of ha3 (ev_ofE hw true (ev ha3 rfl)
-    (ev_getE' ha3 rfl hd hdi rfl) (ev_getE' ha3 rfl hs hsi hb)) _ _ ht3 (hne _ (by simp [flagNames]))
-  obtain ⟨σ5, e5, ht5, hm5, ha5⟩ := exec_cf ha4 (ev_cfSubE (ev ha4 rfl) (ev_getE' ha4 rfl hd hdi rfl))
-    _ _ ht4 (hne _ (by simp [flagNames]))
-  refine ⟨_, _, ?_, ?_, ha5, ?_⟩
-  · rw [runBTR_straight _ _ _ _ (by simp [cmpOps])]
-    simp only [cmpOps, execOps, e2, e3, e4, e5, insRR]
-  · rw [step_cmp_rr, alu2_rr_nostore _ _ _ _ _ _ _ _ haddr]
-    simp only [insRR]
-    congr 1
-    simp only [subWith, setSZ, ← sub_cf_eq hw, ← sub_of_eq hw, ← sf_eq hw]
-    simp [getReg]
-  · simp [hm5, hm4, hm3, hm2]
-
-/-! ### mov -/
-
-theorem opsRR_mov {d s : GReg} (hd : Shape d) (hs : Shape s) (hb : s.bits = d.bits) (addr : Nat) :
-    opsRR .amd64 "mov" addr d s = .ok [.assign (X86Lift.scalar (rName d.idx) 64) (setE d (getE s))] := by
-  have hgs : (getE s).bits = d.bits := by rw [getE_bits hs, hb]
-  simp only [opsRR, regGet_eq hd, regGet_eq hs, bind, Res.bind, pure, regSet, regSetExpr_eq hd hgs, Mode.bits]
-
-theorem step_mov_rr (addr len asz : Nat) (d s : GReg) (st : St) (h : addr + len < 2 ^ 64) :
-    step (insRR "mov" addr len asz d s) st = .ok (setReg st d ((getReg st s d.bits).setWidth 64)) (addr + len) [] := by
-  have hc : splitCc "mov" = none := by decide
-  have hn := nextIp_rr "mov" addr len asz d s h
-  unfold step insRR
-  simp only [hc]
-  simp only [insRR] at hn
-  simp [readOp, writeOp, orTrap, done, Opnd.bits, hn]
-
-theorem lift_mov_rr {d s : GReg} (hd : Shape d) (hs : Shape s) (hb : s.bits = d.bits) (hdi : d.idx < 16) (hsi : s.idx < 16)
-    (addr len asz : Nat) (haddr : addr + len < 2 ^ 64) (σ : State) (st : St) (ha : Abs σ st) :
-    ∃ r, liftRR .amd64 "mov" addr len d s = .ok r ∧ Agrees r σ (insRR "mov" addr len asz d s) st := by
-  refine ⟨straight addr len [.assign (X86Lift.scalar (rName d.idx) 64) (setE d (getE s))],
-    by simp [liftRR, opsRR_mov hd hs hb, bind, Res.bind, pure], ?_⟩
-  have e1 := exec_assign (X86Lift.scalar (rName d.idx) 64) (ev_setE ha hd hdi (ev_getE' ha rfl hs hsi hb))
-  have ha1 := abs_setReg ha hdi ((getReg st s d.bits).setWidth 64)
-  refine ⟨_, _, ?_, ?_, ha1, ?_⟩
-  · rw [runBTR_straight _ _ _ _ (by simp)]
-    simp only [execOps, e1, insRR]
-    rfl
-  · rw [step_mov_rr _ _ _ _ _ _ haddr]; rfl
-  · simp
-
-
-/-! ### and / or / xor -/
+theorem opsDS_mov {d : GReg} (hd : Shape d) {se : Expr} (hgs : se.bits = d.bits) (addr : Nat) :
+    opsDS .amd64 "mov" addr d se = .ok [.assign (X86Lift.scalar (rName d.idx) 64) (setE d se)] := by
+  simp only [opsDS, regGet_eq hd, bind, Res.bind, pure, regSet, regSetExpr_eq hd hgs, Mode.bits]
 
 /-- what the three logical mnemonics compute -/
 def logicOp : String → BinOp
@@ -296,34 +184,33 @@ def logicFn {w : Nat} (m : String) (a b : BitVec w) : BitVec w :=
   if m = "and" then a &&& b else if m = "or" then a ||| b else a ^^^ b
 
 /-- the value assigned to the temporary: `xor r, r` is emitted as the constant zero -/
-def logicE (m : String) (d s : GReg) : Expr :=
-  if m = "xor" ∧ getE d = getE s then Expr.ec 0 d.bits else .bin (logicOp m) (getE d) (getE s)
+def logicE (m : String) (d : GReg) (se : Expr) : Expr :=
+  if m = "xor" ∧ getE d = se then Expr.ec 0 d.bits else .bin (logicOp m) (getE d) se
 
-def logicOps (m : String) (addr : Nat) (d s : GReg) : List Op :=
-  [.assign (temp addr 0 d.bits) (logicE m d s),
+def logicOps (m : String) (addr : Nat) (d : GReg) (se : Expr) : List Op :=
+  [.assign (temp addr 0 d.bits) (logicE m d se),
    .assign (X86Lift.scalar "ZF" 1) (zfE (.scalar (temp addr 0 d.bits)) d.bits),
    .assign (X86Lift.scalar "SF" 1) (sfE (.scalar (temp addr 0 d.bits)) d.bits),
    .assign (X86Lift.scalar "CF" 1) (Expr.ec 0 1),
    .assign (X86Lift.scalar "OF" 1) (Expr.ec 0 1),
    .assign (X86Lift.scalar (rName d.idx) 64) (setE d (.scalar (temp addr 0 d.bits)))]
 
-theorem opsRR_logic {m : String} (hm : m = "and" ∨ m = "or" ∨ m = "xor") {d s : GReg} (hd : Shape d) (hs : Shape s)
-    (hb : s.bits = d.bits) (addr : Nat) : opsRR .amd64 m addr d s = .ok (logicOps m addr d s) := by
+theorem opsDS_logic {m : String} (hm : m = "and" ∨ m = "or" ∨ m = "xor") {d : GReg} (hd : Shape d) {se : Expr}
+    (hgs : se.bits = d.bits) (addr : Nat) : opsDS .amd64 m addr d se = .ok (logicOps m addr d se) := by
   have h2 : 2 ≤ d.bits := by rcases shape_bits hd with h | h | h | h <;> omega
   have hgd := getE_bits hd
-  have hgs : (getE s).bits = d.bits := by rw [getE_bits hs, hb]
   rcases hm with rfl | rfl | rfl
-  · simp only [opsRR, regGet_eq hd, regGet_eq hs, bind, Res.bind, hgd, pure]
+  · simp only [opsDS, regGet_eq hd, bind, Res.bind, hgd, pure]
     rw [zfExpr_eq (tempE_bits addr 0 d.bits), sfExpr_eq (tempE_bits addr 0 d.bits) h2]
     simp [regSet, regSetExpr_eq hd (tempE_bits addr 0 d.bits), Expr.mkBin, hgd, hgs, bind, Res.bind, pure, Mode.bits,
       logicOps, logicE, logicOp]
-  · simp only [opsRR, regGet_eq hd, regGet_eq hs, bind, Res.bind, hgd, pure]
+  · simp only [opsDS, regGet_eq hd, bind, Res.bind, hgd, pure]
     rw [zfExpr_eq (tempE_bits addr 0 d.bits), sfExpr_eq (tempE_bits addr 0 d.bits) h2]
     simp [regSet, regSetExpr_eq hd (tempE_bits addr 0 d.bits), Expr.mkBin, hgd, hgs, bind, Res.bind, pure, Mode.bits,
       logicOps, logicE, logicOp]
-  · simp only [opsRR, regGet_eq hd, regGet_eq hs, bind, Res.bind, hgd, pure]
+  · simp only [opsDS, regGet_eq hd, bind, Res.bind, hgd, pure]
     rw [zfExpr_eq (tempE_bits addr 0 d.bits), sfExpr_eq (tempE_bits addr 0 d.bits) h2]
-    by_cases he : getE d = getE s
+    by_cases he : getE d = se
     · simp [regSet, regSetExpr_eq hd (tempE_bits addr 0 d.bits), Expr.mkBin, hgd, hgs, bind, Res.bind, pure, Mode.bits,
         logicOps, logicE, logicOp, he]
     · simp [regSet, regSetExpr_eq hd (tempE_bits addr 0 d.bits), Expr.mkBin, hgd, hgs, bind, Res.bind, pure, Mode.bits,
@@ -334,96 +221,219 @@ theorem ev_unique {σ : State} {e : Expr} {n : Nat} {x y : BitVec n} (h1 : Ev σ
   injection this with h
   exact ofBV_inj h
 
-theorem ev_logicE {m : String} (hm : m = "and" ∨ m = "or" ∨ m = "xor") {σ : State} {d s : GReg} {a b : BitVec d.bits}
-    (hl : Ev σ (getE d) d.bits a) (hr : Ev σ (getE s) d.bits b) : Ev σ (logicE m d s) d.bits (logicFn m a b) := by
+theorem ev_logicE {m : String} (hm : m = "and" ∨ m = "or" ∨ m = "xor") {σ : State} {d : GReg} {se : Expr} {a b : BitVec d.bits}
+    (hl : Ev σ (getE d) d.bits a) (hr : Ev σ se d.bits b) : Ev σ (logicE m d se) d.bits (logicFn m a b) := by
   rcases hm with rfl | rfl | rfl
   · simpa [logicE, logicOp, logicFn] using Ev.and hl hr
   · simpa [logicE, logicOp, logicFn] using Ev.or hl hr
-  · by_cases he : getE d = getE s
+  · by_cases he : getE d = se
     · have hab : a = b := ev_unique hl (he ▸ hr)
       subst hab
       have := Ev.ec (σ := σ) 0 d.bits
       simpa [logicE, logicFn, he] using this
     · simpa [logicE, logicOp, logicFn, he] using Ev.xor hl hr
 
-theorem step_and_rr (addr len asz : Nat) (d s : GReg) (st : St) :
-    step (insRR "and" addr len asz d s) st =
-      alu2 (insRR "and" addr len asz d s) st (fun _ σ a b => (a &&& b, logic σ (a &&& b))) true := by
-  have h : splitCc "and" = none := by decide
-  unfold step insRR
-  simp only [h]
-  simp
-
-theorem step_or_rr (addr len asz : Nat) (d s : GReg) (st : St) :
-    step (insRR "or" addr len asz d s) st =
-      alu2 (insRR "or" addr len asz d s) st (fun _ σ a b => (a ||| b, logic σ (a ||| b))) true := by
-  have h : splitCc "or" = none := by decide
-  unfold step insRR
-  simp only [h]
-  simp
-
-theorem step_xor_rr (addr len asz : Nat) (d s : GReg) (st : St) :
-    step (insRR "xor" addr len asz d s) st =
-      alu2 (insRR "xor" addr len asz d s) st (fun _ σ a b => (a ^^^ b, logic σ (a ^^^ b))) true := by
-  have h : splitCc "xor" = none := by decide
-  unfold step insRR
-  simp only [h]
-  simp
-
-theorem step_logic_rr {m : String} (hm : m = "and" ∨ m = "or" ∨ m = "xor") (addr len asz : Nat) (d s : GReg) (st : St) :
-    step (insRR m addr len asz d s) st =
-      alu2 (insRR m addr len asz d s) st (fun _ σ a b => (logicFn m a b, logic σ (logicFn m a b))) true := by
-  rcases hm with rfl | rfl | rfl
-  · rw [step_and_rr]; rfl
-  · rw [step_or_rr]; rfl
-  · rw [step_xor_rr]; rfl
-
 theorem ev_zero1 {σ : State} : Ev σ (Expr.ec 0 1) 1 (BitVec.ofBool false) := by
   simpa using Ev.ec (σ := σ) 0 1
 
-theorem lift_logic_rr {m : String} (hm : m = "and" ∨ m = "or" ∨ m = "xor") {d s : GReg} (hd : Shape d) (hs : Shape s)
-    (hb : s.bits = d.bits) (hdi : d.idx < 16) (hsi : s.idx < 16)
-    (addr len asz : Nat) (haddr : addr + len < 2 ^ 64) (σ : State) (st : St) (ha : Abs σ st) :
-    ∃ r, liftRR .amd64 m addr len d s = .ok r ∧ Agrees r σ (insRR m addr len asz d s) st := by
+/-! ### running the blocks: the machine state the final IL state holds -/
+
+/-- the result of `add`/`sub` on the machine state -/
+def arithSt (sub : Bool) (st : St) (d : GReg) (b : BitVec d.bits) : St :=
+  let p := if sub then subWith st (getReg st d d.bits) b false else addWith st (getReg st d d.bits) b false
+  setReg p.2 d (p.1.setWidth 64)
+
+theorem run_arith (sub : Bool) {d : GReg} (hd : Shape d) (hdi : d.idx < 16) {so : Opnd} {se : Expr} {b : BitVec d.bits}
+    (addr len : Nat) (σ : State) (st : St) (ha : Abs σ st) (hsrc : Src st d so se b) :
+    ∃ σ', runBTR (straight addr len (arithOps (if sub then .sub else .add) sub addr d se)) σ = .next σ' [addr + len] ∧
+      Abs σ' (arithSt sub st d b) ∧ σ'.mem = σ.mem := by
   have hw := shape_bits hd
-  refine ⟨straight addr len (logicOps m addr d s), by simp [liftRR, opsRR_logic hm hd hs hb, bind, Res.bind, pure], ?_⟩
   have hne : ∀ f, f ∈ flagNames → (temp addr 0 d.bits).name ≠ f := fun f hf => temp_ne_flag hf addr 0 d.bits
-  have e1 := exec_assign (σ := σ) (temp addr 0 d.bits) (ev_logicE hm (ev_getE' ha rfl hd hdi rfl) (ev_getE' ha rfl hs hsi hb))
-  have ha1 := abs_set_temp ha addr 0 d.bits (ofBV (logicFn m (getReg st d d.bits) (getReg st s d.bits)))
-  have ht1 := get_set_self σ (temp addr 0 d.bits).name (ofBV (logicFn m (getReg st d d.bits) (getReg st s d.bits)))
+  cases sub with
+  | false =>
+    have e1 := exec_assign (σ := σ) (temp addr 0 d.bits) (Ev.add (ev_getE' ha rfl hd hdi rfl) (hsrc.ev ha rfl))
+    have ha1 := abs_set_temp ha addr 0 d.bits (ofBV (getReg st d d.bits + b))
+    have ht1 := get_set_self σ (temp addr 0 d.bits).name (ofBV (getReg st d d.bits + b))
+    obtain ⟨σ2, e2, ht2, hm2, ha2⟩ := exec_zf ha1 (ev_zfE (Ev.scalar (s := temp addr 0 d.bits) ht1)) _ _ ht1 (hne _ (by simp [flagNames]))
+    obtain ⟨σ3, e3, ht3, hm3, ha3⟩ := exec_sf ha2 (ev_sfE hw (Ev.scalar (s := temp addr 0 d.bits) ht2)) _ _ ht2 (hne _ (by simp [flagNames]))
+    obtain ⟨σ4, e4, ht4, hm4, ha4⟩ := exec_of ha3 (ev_ofE hw false (Ev.scalar (s := temp addr 0 d.bits) ht3)
+      (ev_getE' ha3 rfl hd hdi rfl) (hsrc.ev ha3 rfl)) _ _ ht3 (hne _ (by simp [flagNames]))
+    obtain ⟨σ5, e5, ht5, hm5, ha5⟩ := exec_cf ha4 (ev_cfAddE (Ev.scalar (s := temp addr 0 d.bits) ht4) (ev_getE' ha4 rfl hd hdi rfl))
+      _ _ ht4 (hne _ (by simp [flagNames]))
+    have e6 := exec_assign (X86Lift.scalar (rName d.idx) 64) (ev_setE ha5 hd hdi (Ev.scalar (s := temp addr 0 d.bits) ht5))
+    have ha6 := abs_setReg ha5 hdi ((getReg st d d.bits + b).setWidth 64)
+    refine ⟨_, ?_, Eq.mp (congrArg (Abs _) ?_) ha6, ?_⟩
+    · rw [runBTR_straight _ _ _ _ (by simp [arithOps])]
+      simp only [arithOps, Bool.false_eq_true, ↓reduceIte, execOps, e1, e2, e3, e4, e5, e6]
+      rfl
+    · simp only [arithSt, Bool.false_eq_true, ↓reduceIte, addWith, setSZ, ← add_cf_eq hw, ← add_of_eq hw, ← sf_eq hw]
+      simp [getReg]
+    · simp [hm5, hm4, hm3, hm2]
+  | true =>
+    have e1 := exec_assign (σ := σ) (temp addr 0 d.bits) (Ev.sub (ev_getE' ha rfl hd hdi rfl) (hsrc.ev ha rfl))
+    have ha1 := abs_set_temp ha addr 0 d.bits (ofBV (getReg st d d.bits - b))
+    have ht1 := get_set_self σ (temp addr 0 d.bits).name (ofBV (getReg st d d.bits - b))
+    obtain ⟨σ2, e2, ht2, hm2, ha2⟩ := exec_zf ha1 (ev_zfE (Ev.scalar (s := temp addr 0 d.bits) ht1)) _ _ ht1 (hne _ (by simp [flagNames]))
+    obtain ⟨σ3, e3, ht3, hm3, ha3⟩ := exec_sf ha2 (ev_sfE hw (Ev.scalar (s := temp addr 0 d.bits) ht2)) _ _ ht2 (hne _ (by simp [flagNames]))
+    obtain ⟨σ4, e4, ht4, hm4, ha4⟩ := exec_of ha3 (ev_ofE hw true (Ev.scalar (s := temp addr 0 d.bits) ht3)
+      (ev_getE' ha3 rfl hd hdi rfl) (hsrc.ev ha3 rfl)) _ _ ht3 (hne _ (by simp [flagNames]))
+    obtain ⟨σ5, e5, ht5, hm5, ha5⟩ := exec_cf ha4 (ev_cfSubE (Ev.scalar (s := temp addr 0 d.bits) ht4) (ev_getE' ha4 rfl hd hdi rfl))
+      _ _ ht4 (hne _ (by simp [flagNames]))
+    have e6 := exec_assign (X86Lift.scalar (rName d.idx) 64) (ev_setE ha5 hd hdi (Ev.scalar (s := temp addr 0 d.bits) ht5))
+    have ha6 := abs_setReg ha5 hdi ((getReg st d d.bits - b).setWidth 64)
+    refine ⟨_, ?_, Eq.mp (congrArg (Abs _) ?_) ha6, ?_⟩
+    · rw [runBTR_straight _ _ _ _ (by simp [arithOps])]
+      simp only [arithOps, ↓reduceIte, execOps, e1, e2, e3, e4, e5, e6]
+      rfl
+    · simp only [arithSt, ↓reduceIte, subWith, setSZ, ← sub_cf_eq hw, ← sub_of_eq hw, ← sf_eq hw]
+      simp [getReg]
+    · simp [hm5, hm4, hm3, hm2]
+
+theorem run_cmp {d : GReg} (hd : Shape d) (hdi : d.idx < 16) {so : Opnd} {se : Expr} {b : BitVec d.bits}
+    (addr len : Nat) (σ : State) (st : St) (ha : Abs σ st) (hsrc : Src st d so se b) :
+    ∃ σ', runBTR (straight addr len (cmpOps d se)) σ = .next σ' [addr + len] ∧
+      Abs σ' (subWith st (getReg st d d.bits) b false).2 ∧ σ'.mem = σ.mem := by
+  have hw := shape_bits hd
+  have hne : ∀ f, f ∈ flagNames → rName d.idx ≠ f := fun f hf => rName_ne_flag hdi hf
+  have ev : ∀ {σ' st'}, Abs σ' st' → st'.gpr = st.gpr →
+      Ev σ' (.bin .sub (getE d) se) d.bits (getReg st d d.bits - b) :=
+    fun h hg => Ev.sub (ev_getE' h hg hd hdi rfl) (hsrc.ev h hg)
+  have ht1 := ha.gpr d.idx hdi
+  obtain ⟨σ2, e2, ht2, hm2, ha2⟩ := exec_zf ha (ev_zfE (ev ha rfl)) _ _ ht1 (hne _ (by simp [flagNames]))
+  obtain ⟨σ3, e3, ht3, hm3, ha3⟩ := exec_sf ha2 (ev_sfE hw (ev ha2 rfl)) _ _ ht2 (hne _ (by simp [flagNames]))
+  obtain ⟨σ4, e4, ht4, hm4, ha4⟩ := exec_of ha3 (ev_ofE hw true (ev ha3 rfl)
+    (ev_getE' ha3 rfl hd hdi rfl) (hsrc.ev ha3 rfl)) _ _ ht3 (hne _ (by simp [flagNames]))
+  obtain ⟨σ5, e5, ht5, hm5, ha5⟩ := exec_cf ha4 (ev_cfSubE (ev ha4 rfl) (ev_getE' ha4 rfl hd hdi rfl))
+    _ _ ht4 (hne _ (by simp [flagNames]))
+  refine ⟨_, ?_, Eq.mp (congrArg (Abs _) ?_) ha5, ?_⟩
+  · rw [runBTR_straight _ _ _ _ (by simp [cmpOps])]
+    simp only [cmpOps, execOps, e2, e3, e4, e5]
+  · simp only [subWith, setSZ, ← sub_cf_eq hw, ← sub_of_eq hw, ← sf_eq hw]
+    simp [getReg]
+  · simp [hm5, hm4, hm3, hm2]
+
+theorem run_mov {d : GReg} (hd : Shape d) (hdi : d.idx < 16) {so : Opnd} {se : Expr} {b : BitVec d.bits}
+    (addr len : Nat) (σ : State) (st : St) (ha : Abs σ st) (hsrc : Src st d so se b) :
+    ∃ σ', runBTR (straight addr len [.assign (X86Lift.scalar (rName d.idx) 64) (setE d se)]) σ = .next σ' [addr + len] ∧
+      Abs σ' (setReg st d (b.setWidth 64)) ∧ σ'.mem = σ.mem := by
+  have e1 := exec_assign (X86Lift.scalar (rName d.idx) 64) (ev_setE ha hd hdi (hsrc.ev ha rfl))
+  refine ⟨_, ?_, abs_setReg ha hdi (b.setWidth 64), ?_⟩
+  · rw [runBTR_straight _ _ _ _ (by simp)]
+    simp only [execOps, e1]
+    rfl
+  · simp
+
+theorem run_logic {m : String} (hm : m = "and" ∨ m = "or" ∨ m = "xor") {d : GReg} (hd : Shape d) (hdi : d.idx < 16)
+    {so : Opnd} {se : Expr} {b : BitVec d.bits}
+    (addr len : Nat) (σ : State) (st : St) (ha : Abs σ st) (hsrc : Src st d so se b) :
+    ∃ σ', runBTR (straight addr len (logicOps m addr d se)) σ = .next σ' [addr + len] ∧
+      Abs σ' (setReg (logic st (logicFn m (getReg st d d.bits) b)) d ((logicFn m (getReg st d d.bits) b).setWidth 64)) ∧
+      σ'.mem = σ.mem := by
+  have hw := shape_bits hd
+  have hne : ∀ f, f ∈ flagNames → (temp addr 0 d.bits).name ≠ f := fun f hf => temp_ne_flag hf addr 0 d.bits
+  have e1 := exec_assign (σ := σ) (temp addr 0 d.bits) (ev_logicE hm (ev_getE' ha rfl hd hdi rfl) (hsrc.ev ha rfl))
+  have ha1 := abs_set_temp ha addr 0 d.bits (ofBV (logicFn m (getReg st d d.bits) b))
+  have ht1 := get_set_self σ (temp addr 0 d.bits).name (ofBV (logicFn m (getReg st d d.bits) b))
   obtain ⟨σ2, e2, ht2, hm2, ha2⟩ := exec_zf ha1 (ev_zfE (Ev.scalar (s := temp addr 0 d.bits) ht1)) _ _ ht1 (hne _ (by simp [flagNames]))
   obtain ⟨σ3, e3, ht3, hm3, ha3⟩ := exec_sf ha2 (ev_sfE hw (Ev.scalar (s := temp addr 0 d.bits) ht2)) _ _ ht2 (hne _ (by simp [flagNames]))
   obtain ⟨σ4, e4, ht4, hm4, ha4⟩ := exec_cf ha3 ev_zero1 _ _ ht3 (hne _ (by simp [flagNames]))
   obtain ⟨σ5, e5, ht5, hm5, ha5⟩ := exec_of ha4 ev_zero1 _ _ ht4 (hne _ (by simp [flagNames]))
   have e6 := exec_assign (X86Lift.scalar (rName d.idx) 64) (ev_setE ha5 hd hdi (Ev.scalar (s := temp addr 0 d.bits) ht5))
-  have ha6 := abs_setReg ha5 hdi ((logicFn m (getReg st d d.bits) (getReg st s d.bits)).setWidth 64)
-  refine ⟨_, _, ?_, ?_, ha6, ?_⟩
+  have ha6 := abs_setReg ha5 hdi ((logicFn m (getReg st d d.bits) b).setWidth 64)
+  refine ⟨_, ?_, ha6, ?_⟩
   · rw [runBTR_straight _ _ _ _ (by simp [logicOps])]
-    simp only [logicOps, execOps, e1, e2, e3, e4, e5, e6, insRR]
+    simp only [logicOps, execOps, e1, e2, e3, e4, e5, e6]
     rfl
-  · rw [step_logic_rr hm, alu2_rr _ _ _ _ _ _ _ _ haddr]
-    simp only [insRR]
-    congr 1
   · simp [hm5, hm4, hm3, hm2]
 
+/-! ### the specification on these instructions -/
 
-/-! ### the class -/
+theorem alu2_eval (m : String) (addr len asz : Nat) (d : GReg) {so : Opnd} {se : Expr} (st : St) {b : BitVec d.bits}
+    (hsrc : Src st d so se b) (f : (w : Nat) → St → BitVec w → BitVec w → BitVec w × St) (h : addr + len < 2 ^ 64) :
+    alu2 (ins2 m addr len asz d so) st f true =
+      .ok (setReg (f d.bits st (getReg st d d.bits) b).2 d ((f d.bits st (getReg st d d.bits) b).1.setWidth 64)) (addr + len) [] ∧
+    alu2 (ins2 m addr len asz d so) st f false = .ok (f d.bits st (getReg st d d.bits) b).2 (addr + len) [] :=
+  hsrc.spec m addr len asz f h
 
-def rrMnemonics : List String := ["mov", "add", "sub", "cmp", "and", "or", "xor"]
+theorem step_alu (m : String) (addr len asz : Nat) (d : GReg) (so : Opnd) (st : St) :
+    (m = "add" → step (ins2 m addr len asz d so) st = alu2 (ins2 m addr len asz d so) st (fun _ σ a b => addWith σ a b false) true) ∧
+    (m = "sub" → step (ins2 m addr len asz d so) st = alu2 (ins2 m addr len asz d so) st (fun _ σ a b => subWith σ a b false) true) ∧
+    (m = "cmp" → step (ins2 m addr len asz d so) st = alu2 (ins2 m addr len asz d so) st (fun _ σ a b => subWith σ a b false) false) ∧
+    (m = "and" → step (ins2 m addr len asz d so) st = alu2 (ins2 m addr len asz d so) st (fun _ σ a b => (a &&& b, logic σ (a &&& b))) true) ∧
+    (m = "or" → step (ins2 m addr len asz d so) st = alu2 (ins2 m addr len asz d so) st (fun _ σ a b => (a ||| b, logic σ (a ||| b))) true) ∧
+    (m = "xor" → step (ins2 m addr len asz d so) st = alu2 (ins2 m addr len asz d so) st (fun _ σ a b => (a ^^^ b, logic σ (a ^^^ b))) true) := by
+  refine ⟨?_, ?_, ?_, ?_, ?_, ?_⟩ <;> intro hm <;> subst hm
+  · have h : splitCc "add" = none := by decide
+    unfold step ins2; simp only [h]; simp
+  · have h : splitCc "sub" = none := by decide
+    unfold step ins2; simp only [h]; simp
+  · have h : splitCc "cmp" = none := by decide
+    unfold step ins2; simp only [h]; simp
+  · have h : splitCc "and" = none := by decide
+    unfold step ins2; simp only [h]; simp
+  · have h : splitCc "or" = none := by decide
+    unfold step ins2; simp only [h]; simp
+  · have h : splitCc "xor" = none := by decide
+    unfold step ins2; simp only [h]; simp
 
-theorem lift_rr {m : String} (hm : m ∈ rrMnemonics) {d s : GReg} (hd : Shape d) (hs : Shape s)
+theorem step_mov (addr len asz : Nat) (d : GReg) {so : Opnd} {se : Expr} (st : St) {b : BitVec d.bits}
+    (hsrc : Src st d so se b) (h : addr + len < 2 ^ 64) :
+    step (ins2 "mov" addr len asz d so) st = .ok (setReg st d (b.setWidth 64)) (addr + len) [] := by
+  have hc : splitCc "mov" = none := by decide
+  have hn := nextIp_2 "mov" addr len asz d so h
+  have hr := hsrc.read (ins2 "mov" addr len asz d so)
+  unfold step ins2
+  simp only [hc]
+  simp only [ins2] at hn hr
+  simp [hr, writeOp, orTrap, done, Opnd.bits, hn]
+
+/-! ### agreement -/
+
+def aluMn : List String := ["mov", "add", "sub", "cmp", "and", "or", "xor"]
+
+/-- for any source operand the mirror and the specification both understand (`Src`) -/
+theorem lift_ds {m : String} (hm : m ∈ aluMn) {d : GReg} (hd : Shape d) (hdi : d.idx < 16)
+    {so : Opnd} {se : Expr} {b : BitVec d.bits} (addr len asz : Nat) (haddr : addr + len < 2 ^ 64)
+    (σ : State) (st : St) (ha : Abs σ st) (hsrc : Src st d so se b) :
+    ∃ ops, opsDS .amd64 m addr d se = .ok ops ∧ Agrees (straight addr len ops) σ (ins2 m addr len asz d so) st := by
+  simp only [aluMn, List.mem_cons, List.not_mem_nil, or_false] at hm
+  have hst := step_alu m addr len asz d so st
+  rcases hm with rfl | rfl | rfl | rfl | rfl | rfl | rfl
+  · obtain ⟨σ', h1, h2, h3⟩ := run_mov hd hdi addr len σ st ha hsrc
+    exact ⟨_, opsDS_mov hd hsrc.bits addr, σ', _, h1, step_mov addr len asz d st hsrc haddr, h2, h3⟩
+  · obtain ⟨σ', h1, h2, h3⟩ := run_arith false hd hdi addr len σ st ha hsrc
+    refine ⟨_, opsDS_add hd hsrc.bits addr, σ', _, h1, ?_, h2, h3⟩
+    rw [hst.1 rfl, (alu2_eval "add" addr len asz d st hsrc _ haddr).1]; rfl
+  · obtain ⟨σ', h1, h2, h3⟩ := run_arith true hd hdi addr len σ st ha hsrc
+    refine ⟨_, opsDS_sub hd hsrc.bits addr, σ', _, h1, ?_, h2, h3⟩
+    rw [hst.2.1 rfl, (alu2_eval "sub" addr len asz d st hsrc _ haddr).1]; rfl
+  · obtain ⟨σ', h1, h2, h3⟩ := run_cmp hd hdi addr len σ st ha hsrc
+    refine ⟨_, opsDS_cmp hd hsrc.bits addr, σ', _, h1, ?_, h2, h3⟩
+    rw [hst.2.2.1 rfl, (alu2_eval "cmp" addr len asz d st hsrc _ haddr).2]; rfl
+  · obtain ⟨σ', h1, h2, h3⟩ := run_logic (Or.inl rfl) hd hdi addr len σ st ha hsrc
+    refine ⟨_, opsDS_logic (Or.inl rfl) hd hsrc.bits addr, σ', _, h1, ?_, h2, h3⟩
+    rw [hst.2.2.2.1 rfl, (alu2_eval "and" addr len asz d st hsrc _ haddr).1]; rfl
+  · obtain ⟨σ', h1, h2, h3⟩ := run_logic (Or.inr (Or.inl rfl)) hd hdi addr len σ st ha hsrc
+    refine ⟨_, opsDS_logic (Or.inr (Or.inl rfl)) hd hsrc.bits addr, σ', _, h1, ?_, h2, h3⟩
+    rw [hst.2.2.2.2.1 rfl, (alu2_eval "or" addr len asz d st hsrc _ haddr).1]; rfl
+  · obtain ⟨σ', h1, h2, h3⟩ := run_logic (Or.inr (Or.inr rfl)) hd hdi addr len σ st ha hsrc
+    refine ⟨_, opsDS_logic (Or.inr (Or.inr rfl)) hd hsrc.bits addr, σ', _, h1, ?_, h2, h3⟩
+    rw [hst.2.2.2.2.2 rfl, (alu2_eval "xor" addr len asz d st hsrc _ haddr).1]; rfl
+
+/-- register, register -/
+theorem lift_rr {m : String} (hm : m ∈ aluMn) {d s : GReg} (hd : Shape d) (hs : Shape s)
     (hb : s.bits = d.bits) (hdi : d.idx < 16) (hsi : s.idx < 16)
     (addr len asz : Nat) (haddr : addr + len < 2 ^ 64) (σ : State) (st : St) (ha : Abs σ st) :
     ∃ r, liftRR .amd64 m addr len d s = .ok r ∧ Agrees r σ (insRR m addr len asz d s) st := by
-  simp only [rrMnemonics, List.mem_cons, List.not_mem_nil, or_false] at hm
-  rcases hm with rfl | rfl | rfl | rfl | rfl | rfl | rfl
-  · exact lift_mov_rr hd hs hb hdi hsi addr len asz haddr σ st ha
-  · exact lift_add_rr hd hs hb hdi hsi addr len asz haddr σ st ha
-  · exact lift_sub_rr hd hs hb hdi hsi addr len asz haddr σ st ha
-  · exact lift_cmp_rr hd hs hb hdi hsi addr len asz haddr σ st ha
-  · exact lift_logic_rr (Or.inl rfl) hd hs hb hdi hsi addr len asz haddr σ st ha
-  · exact lift_logic_rr (Or.inr (Or.inl rfl)) hd hs hb hdi hsi addr len asz haddr σ st ha
-  · exact lift_logic_rr (Or.inr (Or.inr rfl)) hd hs hb hdi hsi addr len asz haddr σ st ha
+  obtain ⟨ops, h1, h2⟩ := lift_ds hm hd hdi addr len asz haddr σ st ha (src_reg st hs hb hsi)
+  exact ⟨straight addr len ops, by simp [liftRR, opsRR, regGet_eq hs, h1, bind, Res.bind, pure], h2⟩
+
+/-- register, immediate of the register's width -/
+theorem lift_ri {m : String} (hm : m ∈ aluMn) {d : GReg} (hd : Shape d) (hdi : d.idx < 16) (v bytes : Nat)
+    (hb : 8 * bytes = d.bits) (addr len asz : Nat) (haddr : addr + len < 2 ^ 64) (σ : State) (st : St) (ha : Abs σ st) :
+    ∃ r, liftRI .amd64 m addr len d v bytes = .ok r ∧ Agrees r σ (insRI m addr len asz d v bytes) st := by
+  obtain ⟨ops, h1, h2⟩ := lift_ds hm hd hdi addr len asz haddr σ st ha (src_imm st hd v bytes hb)
+  exact ⟨straight addr len ops, by simp [liftRI, opsRI, hb, h1, bind, Res.bind, pure], h2⟩
 
 end C01
 end Falcon
